@@ -61,3 +61,9 @@ MUTANTS += [
      [("src/pptx/parts/image.py", "            if callable(getattr(image_file, \"seek\")):\n                image_file.seek(0)\n", "")],
      "R15.5 Image.from_file"),
 ]
+
+MUTANTS += [
+    ("scale-from-pixel-grid", "the aspect ratio used for scaling is that of the pixel grid",
+     [("src/pptx/parts/image.py", "        image_cx, image_cy = self._native_size\n\n        if scaled_cx and scaled_cy:", "        image_cx, image_cy = self._px_size\n\n        if scaled_cx and scaled_cy:")],
+     "R15.4 ImagePart.scale"),
+]
